@@ -214,7 +214,7 @@ PROPS["C12"] = {
 
 PROPS["C10"] = {
     "extract": [],
-    "rule": "cases = mp4: 240 (1500) layouts over sparse streams - moov first / gap boxes (free, skip, meta, meco; virtual sizes 0..2^36) + one or two mdat (virtual sizes up to 2^36) + moov last (32-bit, 64-bit, until-EOF) / interleaved skippable boxes and two moovs / a moov declaring more than the limit (limit+1, 2^32-9, 2^40, 2^64-17) / until-EOF mdat / unknown box after huge media; moov payloads small, at limit-2..limit+3, ftyp with 1..250 brands; max_metadata_size in {4 KiB, 8 KiB, 64 KiB, 1 MiB, 16 MiB, 1 GiB}; seek-based and strict readers. Each input runs twice, the second time with bytes inside every media/gap payload changed. Observed through a metering Read+Skip (every byte range delivered) and a counting global allocator (peak live-heap growth during the call). Required: identical results of the two runs; no byte read beyond 64 bytes into a skippable box; bytes read <= ftyp box + moov boxes + 32 x (top-level boxes + 1); returned metadata <= 2 x limit + 1088; peak heap <= 4 x limit + 64 KiB; and result, byte count and exact read ranges equal the Lean model's BufReader(32)-over-tracing-input run. webp: zero-bit-code lossless streams declaring 1x1 .. 16384x16384 with entropy sub-images of up to 4096x4096 pixels (as VP8L and as ALPH), encoder streams re-declared as 16384x16384, 40 (200) synthesised streams incl. 11-bit colour caches, ICCP chunks of 2^20, 2^28, 2^32-30 virtual bytes: peak heap <= 4 MiB whatever is declared, never reads more than the input. non-trivial = accepted inputs, multi-GiB streams, over-limit declarations, large declared images; distinct = distinct inputs",
+    "rule": "cases = mp4: 240 (1500) layouts over sparse streams - moov first / gap boxes (free, skip, meta, meco; virtual sizes 0..2^36) + one or two mdat (virtual sizes up to 2^36) + moov last (32-bit, 64-bit, until-EOF) / interleaved skippable boxes and two moovs / a moov declaring more than the limit (limit+1, 2^32-9, 2^40, 2^64-17) / until-EOF mdat / unknown box after huge media; moov payloads small, at limit-2..limit+3, ftyp with 1..250 brands; max_metadata_size in {4 KiB, 8 KiB, 64 KiB, 1 MiB, 16 MiB, 1 GiB}; seek-based and strict readers. Each input runs twice, the second time with bytes inside every media/gap payload changed. Observed through a metering Read+Skip (every byte range delivered) and a counting global allocator (peak live-heap growth during the call). Required: identical results of the two runs; no byte read beyond 64 bytes into a skippable box; bytes read <= ftyp box + moov boxes + 32 x (top-level boxes + 1); returned metadata <= 2 x (limit + 1024 + 32); peak heap <= 4 x limit + 64 KiB; and result, byte count and exact read ranges equal the Lean model's BufReader(32)-over-tracing-input run. webp: zero-bit-code lossless streams declaring 1x1 .. 16384x16384 with entropy sub-images of up to 4096x4096 pixels (as VP8L and as ALPH), encoder streams re-declared as 16384x16384, 40 (200) synthesised streams incl. 11-bit colour caches, ICCP chunks of 2^20, 2^28, 2^32-30 virtual bytes: peak heap <= 4 MiB whatever is declared, never reads more than the input. non-trivial = accepted inputs, multi-GiB streams, over-limit declarations, large declared images; distinct = distinct inputs",
     "trivial_tags": ["mp4", "webp", "rejected", "small", "large-limit", "small-limit", "within", "small-declared", "small-file"],
     "shards": {"quick": 8, "thorough": 16},
     "trusted_base": MP4_TRUSTED + ["the counting allocator and metering reader of the harness (harness/src/main.rs, c10.rs)", "MediaSan/Meter.lean: tracing input; validated by exact agreement of read ranges with the real run"],
